@@ -90,8 +90,11 @@ Definition rehash (x : xmap) (h : heap) : heap * xmap * bool :=
       end
   end.
 
-(* doCreateEntry(key) *)
-Definition create_entry (x : xmap) (k : nat) (h : heap) : heap * xmap * bool :=
+(* doCreateEntry(key).  [ge] = false: the code as found (K-new-2: m_freeEntries.push_back(Entry(allocate(1))) loses the
+   value block when the head node or the node of the free list is refused); [ge] = true: the repaired code
+   (theValue = allocate(1); try { push_back(Entry(theValue)); } catch(...) { deallocate(theValue); throw; }).
+   The value of [ge] for this tree is GenMem.map_entry_guarded. *)
+Definition create_entry (ge : bool) (x : xmap) (k : nat) (h : heap) : heap * xmap * bool :=
   (* 1. no buckets yet: m_buckets.insert(begin(), m_minBuckets, BucketType(manager)) *)
   let '(h1, x1, ok1) :=
     if vsize (mtab x) =? 0 then
@@ -119,10 +122,11 @@ Definition create_entry (x : xmap) (k : nat) (h : heap) : heap * xmap * bool :=
         | (h4, None) => (h4, x3, false)
         | (h4, Some v) =>
             match get_ehead (mmgr x3) (mfhead x3) h4 with          (* m_freeEntries.push_back: end() *)
-            | (h4', fh', false) => (h4', x3, false)                (* the value block is lost *)
+            | (h4', fh', false) => (if ge then free (mmgr x3) v h4' else h4', x3, false)   (* ge = false: the value block is lost *)
             | (h4', fh', true) =>
                 match alloc (mmgr x3) TAG_MNODE 1 h4' with          (* ... and a fresh node *)
-                | (h5, None) => (h5, set_lists x3 (msize x3) (mehead x3) fh' (mentries x3) (mfrees x3), false)   (* the value block is lost *)
+                | (h5, None) => (if ge then free (mmgr x3) v h5 else h5,
+                                 set_lists x3 (msize x3) (mehead x3) fh' (mentries x3) (mfrees x3), false)   (* ge = false: lost *)
                 | (h5, Some nd) =>
                     (h5, set_lists x3 (msize x3) (mehead x3) fh' (mentries x3) [mkentry nd v 0 false], true)
                 end
@@ -155,13 +159,13 @@ Definition with_ehead (x : xmap) (h : heap) : heap * xmap * bool :=
   let '(h1, eh, ok) := get_ehead (mmgr x) (mehead x) h in
   (h1, set_lists x (msize x) eh (mfhead x) (mentries x) (mfrees x), ok).
 
-Definition map_insert (x : xmap) (k : nat) (h : heap) : heap * xmap * bool :=
+Definition map_insert (ge : bool) (x : xmap) (k : nat) (h : heap) : heap * xmap * bool :=
   match with_ehead x h with
   | (h1, x1, false) => (h1, x1, false)
   | (h1, x1, true) =>
       match map_find x1 k with
       | Some _ => (h1, x1, true)
-      | None => create_entry x1 k h1
+      | None => create_entry ge x1 k h1
       end
   end.
 
@@ -251,17 +255,20 @@ Definition map_dtor (x : xmap) (h : heap) : heap * bool :=
   else (members_dtor x1 h, true).
 
 (* XalanMap(rhs, manager): buckets = size_type(loadFactor * rhs.size()) + 1, then insert every entry;
-   when an insert throws, the members are destroyed but not the values (the destructor body does not run) *)
-Fixpoint copy_fill (es : list mentry) (x : xmap) (h : heap) : heap * xmap * bool :=
+   when an insert throws, the members are destroyed; [gc] = false (the code as found): but not the values (the
+   destructor body does not run); [gc] = true (repaired: try { ... } catch(...) { doReleaseEntries(); throw; }, and
+   ~XalanMap() { doReleaseEntries(); }): the entries copied so far are destroyed and their blocks released, exactly
+   as the destructor would.  The value of [gc] for this tree is GenMem.map_copy_guarded. *)
+Fixpoint copy_fill (ge : bool) (es : list mentry) (x : xmap) (h : heap) : heap * xmap * bool :=
   match es with
   | [] => (h, x, true)
-  | e :: r => match map_insert x (ekey e) h with
-              | (h1, x1, true) => copy_fill r x1 h1
+  | e :: r => match map_insert ge x (ekey e) h with
+              | (h1, x1, true) => copy_fill ge r x1 h1
               | (h1, x1, false) => (h1, x1, false)
               end
   end.
 
-Definition map_copy (rhs : xmap) (m : mgr) (h : heap) : heap * xmap * option xmap :=
+Definition map_copy (ge gc : bool) (rhs : xmap) (m : mgr) (h : heap) : heap * xmap * option xmap :=
   let n := msize rhs * map_default_lf_num / map_default_lf_den + 1 in
   match vec_insert_end TAG_BUCKET (vempty m) n h with
   | (h1, _, false) => (h1, rhs, None)
@@ -270,16 +277,16 @@ Definition map_copy (rhs : xmap) (m : mgr) (h : heap) : heap * xmap * option xma
       match with_ehead rhs h1 with                               (* theRhs.begin() allocates in the SOURCE map *)
       | (h2, rhs1, false) => (members_dtor x0 h2, rhs1, None)
       | (h2, rhs1, true) =>
-          match copy_fill (mentries rhs1) x0 h2 with
+          match copy_fill ge (mentries rhs1) x0 h2 with
           | (h3, x1, true) => (h3, rhs1, Some x1)
-          | (h3, x1, false) => (members_dtor x1 h3, rhs1, None)
+          | (h3, x1, false) => (if gc then fst (map_dtor x1 h3) else members_dtor x1 h3, rhs1, None)
           end
       end
   end.
 
 (* operator=(rhs): XalanMap theTemp(rhs, *m_memoryManager); swap(theTemp); ~theTemp *)
-Definition map_assign (x rhs : xmap) (h : heap) : heap * xmap * xmap * bool :=
-  match map_copy rhs (mmgr x) h with
+Definition map_assign (ge gc : bool) (x rhs : xmap) (h : heap) : heap * xmap * xmap * bool :=
+  match map_copy ge gc rhs (mmgr x) h with
   | (h1, rhs1, None) => (h1, x, rhs1, false)
   | (h1, rhs1, Some t) =>
       (* swap exchanges everything except m_minBuckets (const) and the load factor *)
@@ -296,21 +303,24 @@ Definition map_swap (a b : xmap) : xmap * xmap :=
 
 Inductive mop := MInsert (i : bool) (k : nat) | MErase (i : bool) (k : nat) | MClear (i : bool) | MAssign (i : bool) | MSwap.
 
-Definition mstep (op : mop) (w : xmap * xmap) (h : heap) : heap * (xmap * xmap) * bool :=
+Definition mstep (ge gc : bool) (op : mop) (w : xmap * xmap) (h : heap) : heap * (xmap * xmap) * bool :=
   let lift (i : bool) (r : heap * xmap * bool) := let '(h1, x1, ok) := r in (h1, upd i w x1, ok) in
   match op with
-  | MInsert i k => lift i (map_insert (sel i w) k h)
+  | MInsert i k => lift i (map_insert ge (sel i w) k h)
   | MErase i k => lift i (map_erase (sel i w) k h)
   | MClear i => (h, upd i w (map_clear (sel i w)), true)
-  | MAssign i => let '(h1, x1, r1, ok) := map_assign (sel i w) (sel (negb i) w) h in
+  | MAssign i => let '(h1, x1, r1, ok) := map_assign ge gc (sel i w) (sel (negb i) w) h in
                  (h1, upd (negb i) (upd i w x1) r1, ok)
   | MSwap => let '(a, b) := map_swap (fst w) (snd w) in (h, (a, b), true)
   end.
 
 Definition mobs (w : xmap * xmap) : list nat := [msize (fst w); msize (snd w)].
 
-Definition map_case (f : option nat) (minb thr : nat) (ops : list mop) : result :=
-  let '(t, w, h) := run_trace _ _ mstep mobs ops (map0 0 minb thr, map0 1 minb thr) (heap0 f) in
+Definition map_case_g (ge gc : bool) (f : option nat) (minb thr : nat) (ops : list mop) : result :=
+  let '(t, w, h) := run_trace _ _ (mstep ge gc) mobs ops (map0 0 minb thr, map0 1 minb thr) (heap0 f) in
   let '(h1, ok1) := map_dtor (fst w) (clear_log h) in
   let '(h2, ok2) := if ok1 then map_dtor (snd w) h1 else (h1, false) in
   mkresult t (ok1 && ok2) (rev (log h2)) (length (live h2)) (bad h2).
+
+(* this tree: the shapes of doCreateEntry() and of the copy constructor found by the translator *)
+Definition map_case := map_case_g map_entry_guarded map_copy_guarded.
